@@ -50,8 +50,13 @@ def case_strategy(draw, tier):
         # there, and a range of total mass 0 can not be normalised)
         fp = {"kind": "table", "seed": draw(st.integers(0, 10 ** 6))}
     loader = draw(st.sampled_from(["split", "split", "delta", "delta"]))
+    if fp["kind"] == "table" and low < 100 and draw(st.integers(0, 3)) == 3:
+        # a degree function may vanish on some degrees inside the range (e.g. even degrees only)
+        fp["zero_mod"] = draw(st.sampled_from([[2, 1], [3, 1], [3, 2]]))
     c = {"loader": loader, "path": draw(st.sampled_from(["class", "dispatch_enum", "dispatch_str"])),
-         "probs": probs, "range": [low, high], "fp": fp}
+         "probs": probs, "range": [low, high], "fp": fp,
+         # the i-th clique topology spends i edges per member whatever sizes are declared for the generator
+         "sizes": draw(st.sampled_from(["consecutive", "consecutive", "gapped"]))}
     if loader == "delta":
         c["target"] = draw(st.one_of(st.integers(low, high), st.integers(min(low + 1, high), max(low, high - 2)) if high - 2 >= low + 1 else st.integers(low, high), st.integers(0, hi_max + 2)))
     return c
@@ -80,18 +85,23 @@ def check(case):
     low, high = case["range"]
     spec = case["fp"]
     if spec["kind"] == "table":
-        f = lambda k, s=spec["seed"]: positive(s, int(k))
+        zm = spec.get("zero_mod")
+        f = lambda k, s=spec["seed"]: 0.0 if (zm and int(k) % zm[0] == zm[1]) else positive(s, int(k))
     elif spec["kind"] == "exponential":
         f = exponential(spec["a"])
     else:
         f = poisson(spec["m"])
-    p = {JN.FP: f, JN.PROBS: list(case["probs"]), JN.MOTIF_SIZES: list(range(2, T + 2)),
+    msizes = list(range(2, T + 2)) if case.get("sizes") != "gapped" else [2 + 2 * i for i in range(T)]
+    p = {JN.FP: f, JN.PROBS: list(case["probs"]), JN.MOTIF_SIZES: msizes,
          JN.LOW_HIGH_DEGREE_BOUND: (low, high)}
     if case["loader"] == "delta":
         p[JN.TARGET_K] = case["target"]
         cls, typ = JointDegreeDelta, JointDegreeType.DELTA
     else:
         cls, typ = JointDegreeSplitDegree, JointDegreeType.SPLIT_DEGREE
+    if sum(float(f(k)) for k in range(low, high)) == 0.0:
+        # a degree function that vanishes on the whole range describes no distribution: outside the domain
+        return {"nontrivial": False, "classes": ["degenerate_zero_function"]}
     if case["path"] == "class":
         obj = call("construct", cls, p)
     else:
@@ -106,7 +116,7 @@ def check(case):
     if not close(sum(jdd.values()), 1.0):
         raise Violation("sum", f"masses sum to {sum(jdd.values())!r}")
     used = lambda j: sum(t * x for t, x in zip(range(1, T + 1), j))
-    kmax = max(used(j) for j, v in jdd.items() if v > 0)
+    kmax = max(used(j) for j in jdd)
     if kmax not in (high - 1, high):
         raise Violation("range-top", f"largest overall degree present is {kmax}, range is {case['range']}")
     if case["loader"] == "delta":
@@ -116,7 +126,7 @@ def check(case):
         q[JN.TARGET_K] = low
         q.pop(JN.JOINT_DEGREE_TYPE, None)
         probe = call("construct-probe", JointDegreeDelta, q)
-        ptop = max(used(j) for j, v in probe.jdd.items() if v > 0)
+        ptop = max(used(j) for j in probe.jdd)
         if ptop != kmax:
             raise Violation("range-top-depends-on-target", f"with target {case['target']} the largest overall degree is {kmax}, "
                                                            f"with target {low} it is {ptop} (range {case['range']})")
